@@ -632,13 +632,15 @@ def monitor_step(res, led, before, after, r, out, policy, plaus, stats, grid_ok=
                        for k in ids for x in range(n - m, n + m))
             stats['fixed_slot_checked'] += 1
             if m // pcm0 >= nb0 and free and n - m >= lo_ok and n + m - 1 <= hi_ok and n - m > nmin0:
-                res.fail(f'free fixed slot refused: request {rid} asks (N={n}, M={m}) which is free on every OMS of its '
-                         f'route and wide enough, but is blocked ({out.get("reason")})', cls='unlisted')
-        if observed and before != after:
-            ch = sum(1 for a, b in zip(before, after) if a != b)
-            res.fail(f'blocked request changed state: request {rid} ({out}) left {ch} OMS modified', cls='unlisted')
+                # liveness is not in the property text ("used as given OR blocked"): correspondence-level finding
+                # (theorem fixed_free_granted says the model grants it)
+                res.mismatch('liveness: free fixed slot refused', {'request': rid, 'N': n, 'M': m, 'outcome': out},
+                             'granted (free on every OMS of the route, wide enough)')
+        if observed and [x['bm'] for x in before] != [x['bm'] for x in after]:
+            ch = sum(1 for a, b in zip(before, after) if a['bm'] != b['bm'])
+            res.fail(f'blocked request changed state: request {rid} ({out}) left {ch} spectrum maps modified', cls='unlisted')
         if out['kind'] in ('blocked', 'skipped') and ('N' in out or 'M' in out):
-            res.fail(f'blocked request keeps N/M: request {rid} {out}', cls='unlisted')
+            res.mismatch('blocked request keeps N/M', out, 'N = M = None')      # not stated by the property
         return
     ns, ms = out['nm']['N'], out['nm']['M']
     if len(ns) != len(ms) or any(not isinstance(x, int) for x in ns + ms) or any(m <= 0 for m in ms):
@@ -680,39 +682,96 @@ def monitor_step(res, led, before, after, r, out, policy, plaus, stats, grid_ok=
             res.fail(f'occupancy is not the union of the accepted assignments: OMS {k} after request {rid} differs at '
                      f'{len(d)} cells (first index {after[k]["bm"]["n_min"] + d[0] if d else "len"}); OMS in route: {k in ids}',
                      cls='unlisted')
-    # user-fixed values
-    ok, served_fixed, fixed_total = embedding(r['slots'], list(zip(ns, ms)))
-    if not ok:
-        res.fail(f'user-fixed value changed: request {rid} asked {r["slots"]} got N={ns} M={ms}', cls='unlisted')
-    elif served_fixed < fixed_total:
-        # entries left unused once the demand is served are intended behaviour (tests/test_spectrum_assignment.py
-        # ::test_n_m_requests pins it): counted, not a failure
-        stats['accepted_with_fixed_m_entry_unused'] += 1
-    elif len(ns) < len(r['slots']):
-        stats['accepted_with_free_entries_unused'] += 1
-    # first fit: one slot, free N -> no lower feasible position
-    if plaus and grid_ok and len(r['slots']) == 1 and r['slots'][0]['N'] is None and len(ns) == 1 \
-            and policy in ('first_fit', 'last_fit'):
-        n, m = ns[0], ms[0]
-        lo_ok = max(before[k]['bm']['idx_min'] for k in ids)
-        hi_ok = min(before[k]['bm']['idx_max'] for k in ids)
-        nmin = before[ids[0]]['bm']['n_min']
+    # user-fixed values, unserved fixed entries, first fit entry by entry
+    judge_entries(res, before, r, list(zip(ns, ms)), ids, policy, plaus and grid_ok, stats)
 
-        def feasible(c):
-            if c - m < lo_ok or c + m - 1 > hi_ok or c - m <= nmin:
-                return False
-            return all(x_before.get(x) == 'free' for x_before in pre_own for x in range(c - m, c + m))
-        pre_own = [{x: ('free' if ch == '1' else 'x') for x, ch in zip(range(before[k]['bm']['n_min'],
-                                                                         before[k]['bm']['n_max'] + 1),
-                                                                   before[k]['bm']['cells'])} for k in ids]
-        if policy == 'first_fit':
-            better = [c for c in range(lo_ok, n) if feasible(c)]
-        else:
-            better = [c for c in range(n + 1, hi_ok + 1) if feasible(c)]
-        stats['first_fit_checked'] += 1
-        if better:
-            res.fail(f'{policy} not respected: request {rid} placed at N={n} M={m} although N={better[0]} is feasible',
-                     cls='unlisted' if policy == 'first_fit' else 'unlisted')
+
+def processing_order(slots):
+    """the documented order in which the entries of a request are served ("assign biggest m first"): fixed M first,
+    larger M first, then N ascending with an undefined N last; entries without M after them, by N; ties keep the
+    request order (own stable sort)"""
+    inf = float('inf')
+
+    def key(i):
+        sl = slots[i]
+        n = inf if sl['N'] is None else sl['N']
+        return (0, -sl['M'], n) if sl['M'] is not None else (1, 0, n)
+    return sorted(range(len(slots)), key=key)
+
+
+def judge_entries(res, before, r, out, ids, policy, placement_ok, stats):
+    """out = returned (N, M) pairs in request order.  Over every order-preserving assignment of the returned pairs to
+    entries that keeps the user-fixed values:
+      * fixed value changed  - no such assignment exists;
+      * fixed value dropped  - a fully fixed (N, M) entry is unserved although the entries served BEFORE it (documented
+        processing order) do not yet meet the demand (an entry left unused once the demand is met is intended,
+        tests/test_spectrum_assignment.py::test_n_m_requests);
+      * first fit            - every served entry with a free N sits at the lowest position that is feasible in the
+        state left by the entries served before it.
+    The request passes when one assignment passes all three."""
+    slots = r['slots']
+    rid = r['id']
+    pcm = cdiv(r['spacing'], SLOT)
+    required = pcm * cdiv(r['path_bandwidth'], r['bit_rate'])
+    order = processing_order(slots)
+    rank = {e: k for k, e in enumerate(order)}
+    embeddings = [pos for pos in itertools.combinations(range(len(slots)), len(out))
+                  if all((slots[p]['N'] is None or slots[p]['N'] == n) and (slots[p]['M'] is None or slots[p]['M'] == m)
+                         for p, (n, m) in zip(pos, out))]
+    if not embeddings:
+        res.fail(f'user-fixed value changed: request {rid} asked {slots} got N={[n for n, _ in out]} M={[m for _, m in out]}',
+                 cls='unlisted')
+        return
+    if len(out) < len(slots):
+        stats['accepted_with_entries_unused'] += 1
+    lo_ok = max(before[k]['bm']['idx_min'] for k in ids) if ids else 0
+    hi_ok = min(before[k]['bm']['idx_max'] for k in ids) if ids else -1
+    nmin = before[ids[0]]['bm']['n_min'] if ids else 0
+    free0 = None
+    if placement_ok and ids:
+        free0 = set.intersection(*[{x for x, ch in zip(range(before[k]['bm']['n_min'], before[k]['bm']['n_max'] + 1),
+                                                       before[k]['bm']['cells']) if ch == '1'} for k in ids])
+    verdicts = []
+    for pos in embeddings:
+        served = dict(zip(pos, out))
+        problem = None
+        # ---- dropped fixed (N, M)
+        for e in range(len(slots)):
+            if e not in served and slots[e]['N'] is not None and slots[e]['M'] is not None:
+                met = sum(m for p, (_, m) in served.items() if rank[p] < rank[e])
+                if met < required:
+                    problem = ('fixed value dropped', f'entry {slots[e]} is unserved although the entries served before it '
+                               f'give only {met} of the {required} slots needed')
+                    break
+        # ---- first fit, entry by entry in processing order
+        if problem is None and free0 is not None and policy == 'first_fit':
+            free = set(free0)
+            for e in sorted(served, key=lambda p: rank[p]):
+                n, m = served[e]
+                if slots[e]['N'] is None:
+                    stats['first_fit_checked'] += 1
+                    lower = next((c for c in range(lo_ok + m, n)
+                                  if c - m >= lo_ok and c + m - 1 <= hi_ok and c - m > nmin
+                                  and all(x in free for x in range(c - m, c + m))), None)
+                    if lower is not None:
+                        problem = ('first_fit not respected', f'entry {slots[e]} placed at N={n} M={m} although N={lower} '
+                                   f'is feasible after the entries served before it')
+                        break
+                free -= set(range(n - m, n + m))
+        verdicts.append(problem)
+        if problem is None:
+            break
+    if all(v is not None for v in verdicts):
+        what, detail = verdicts[0]
+        res.fail(f'{what}: request {rid} asked {slots}, got N={[n for n, _ in out]} M={[m for _, m in out]}: {detail}',
+                 cls='unlisted')
+    # last fit is not part of the property: correspondence-level only (theorem last_fit_highest)
+    if free0 is not None and policy == 'last_fit' and len(slots) == 1 and slots[0]['N'] is None and len(out) == 1:
+        n, m = out[0]
+        higher = next((c for c in range(hi_ok, n, -1) if c - m >= lo_ok and c + m - 1 <= hi_ok and c - m > nmin
+                       and all(x in free0 for x in range(c - m, c + m))), None)
+        if higher is not None:
+            res.mismatch('last_fit: a higher position is feasible', {'request': rid, 'N': n, 'M': m}, higher)
 
 
 # ---------------------------------------------------------------------------------------------------------------------
@@ -746,8 +805,10 @@ def run_history(case, drv):
     for (p, rp), r in zip(routes, case['requests']):
         lst = build_path_oms_id_list(p + rp)
         want = {t for t in r['pth'] + r['rpth'] if isinstance(t, int)}
-        if set(lst) != want or len(lst) != len(want):
+        if set(lst) != want:
             res.fail(f'route OMS list: build_path_oms_id_list gives {lst}, the line elements carry {sorted(want)}')
+        elif len(lst) != len(want):
+            res.mismatch('build_path_oms_id_list.duplicates', lst, sorted(want))
         path_oms.append(lst)
     ans = drv.ask('c14.history', policy=policy, oms=case['oms'], requests=model_requests(case, path_oms))
     if init_err is not None or 'init_error' in ans:
@@ -793,7 +854,7 @@ def run_history(case, drv):
                 if plaus_state and all(plausible_request(case['requests'][i], len(oms_list), policy) for i in idx):
                     res.fail(f'crash instead of accept/block: batch {[case["requests"][i]["id"] for i in idx]} raises {err} '
                              f'out of pth_assign_spectrum', cls='unlisted')
-                    if bsize == 1 and before != after:
+                    if bsize == 1 and [x['bm'] for x in before] != [x['bm'] for x in after]:
                         res.fail(f'crash left partial state: request {case["requests"][idx[0]]["id"]} raised {err}',
                                  cls='unlisted')
             break
@@ -840,13 +901,6 @@ def run_history(case, drv):
                     d = [j for j, (a, b) in enumerate(zip(after[k]['bm']['cells'], exp)) if a != b]
                     res.fail(f'occupancy is not the union of the accepted assignments: OMS {k} after the call '
                              f'{[case["requests"][i]["id"] for i in idx]} differs at {len(d)} cells', cls='unlisted')
-            untouched = [k for k in range(len(after)) if before[k]['bm'] == after[k]['bm']]
-            for k in untouched:
-                if before[k] != after[k] and not any(
-                        k in {t for t in case['requests'][i]['pth'] + case['requests'][i]['rpth'] if isinstance(t, int)}
-                        and o['kind'] == 'accepted' for i, o in zip(idx, outs)):
-                    res.fail(f'blocked request changed state: service bookkeeping of OMS {k} changed without an accepted '
-                             f'request on it', cls='unlisted')
         before = after
     stats[f'policy_{policy}'] += 1
     stats['plausible_state'] += int(plaus_state)
@@ -895,7 +949,7 @@ def run_unit(case, drv):
             if case['n'] is None and case['policy'] == 'first_fit' and any(feas(c) for c in range(b['n_min'], n)):
                 res.fail(f'first_fit not respected: spectrum_selection gave N={n} for M={m}, a lower position is free')
             if case['n'] is None and case['policy'] == 'last_fit' and any(feas(c) for c in range(n + 1, b['n_max'] + 1)):
-                res.fail(f'last_fit not respected: spectrum_selection gave N={n} for M={m}, a higher position is free')
+                res.mismatch('last_fit: a higher position is free', n, 'highest feasible')    # not in the property
     elif op == 'dsn':
         model = drv.ask('c14.dsn', bitmap=case['bitmap'], n=case['n'], required_m=case['required_m'], pcm=case['pcm'])
         if model.get('error') == 'hang':
@@ -916,7 +970,7 @@ def run_unit(case, drv):
         if 'ok' in got:
             n, m = case['n'], case['m']
             exp = ''.join('0' if n - m <= x <= n + m - 1 else c for x, c in zip(range(b0['n_min'], b0['n_max'] + 1), b0['cells']))
-            if got['ok']['cells'] != exp or not (b0['n_min'] < n - m and n + m - 1 <= b0['n_max']):
+            if got['ok']['cells'] != exp or not (b0['n_min'] <= n - m and n + m - 1 <= b0['n_max']):
                 res.fail(f'assign_spectrum marks other cells than [N-M, N+M-1]: N={n} M={m}')
         elif snap_bitmap(o.spectrum_bitmap) != b0:
             res.fail('assign_spectrum changed the bitmap although it raised')
@@ -930,7 +984,7 @@ def run_unit(case, drv):
             if sorted(got['ok'][2]) != list(range(len(slots))):
                 res.fail('order_slots: the order is not a permutation')
             if slots != case['slots']:
-                res.fail('order_slots modified its argument')
+                res.mismatch('order_slots modified its argument', slots, case['slots'])
         else:
             res.mismatch('order_slots', got, model)
     elif op == 'bsum':
@@ -1013,6 +1067,9 @@ def run_flow(case, drv):
     if err is not None:
         res.cmp_exact('flow.error', err, steps[-1].get('error') if steps else None)
         res.stats[f'flow_exception_{err}'] += 1
+        # every request of the flow stream is well formed (M >= 1, real routes): neither accepted nor blocked
+        res.fail(f'crash instead of accept/block: the batch through the shipped glue raises {err} out of '
+                 f'pth_assign_spectrum', cls='unlisted')
         return res
     outs = [outcome_of(rq, r['pre_blocked']) for rq, r in zip(rqs, case['requests'])]
     res.cmp_exact('flow.outcomes', outs, [s.get('outcome', s) for s in steps])
